@@ -1686,6 +1686,8 @@ impl Node {
         channel_id: ChannelId,
         arc_self: &Arc<Node>,
     ) -> Result<(ChannelId, Option<ChannelSlot>), Status> {
+        // lock order: tracker before channels (as in setup_channel and get_heartbeat)
+        let blockheight = arc_self.get_tracker().height();
         let mut channels = self.get_channels();
         let policy = self.policy();
         if channels.len() >= policy.max_channels() {
@@ -1708,7 +1710,6 @@ impl Node {
         let keys =
             self.keys_manager.get_channel_keys_with_id(channel_id.clone(), channel_value_sat);
 
-        let blockheight = arc_self.get_tracker().height();
         let stub = ChannelStub {
             node: Arc::downgrade(arc_self),
             secp_ctx: Secp256k1::new(),
@@ -2052,6 +2053,9 @@ impl Node {
         prev_outs: &[TxOut],
         uniclosekeys: Vec<Option<(SecretKey, Vec<Vec<u8>>)>>,
     ) -> Result<Vec<Vec<Vec<u8>>>, Status> {
+        // The tracker may be updated for multiple channels.
+        // lock order: tracker before channels (as in setup_channel and get_heartbeat)
+        let mut tracker = self.get_tracker();
         let channels_lock = self.get_channels();
 
         // Funding transactions cannot be associated with just a single channel;
@@ -2227,9 +2231,6 @@ impl Node {
                 witvec.push(witness);
             }
         }
-
-        // The tracker may be updated for multiple channels
-        let mut tracker = self.get_tracker();
 
         // This locks channels in a random order, so we have to keep a global
         // lock to ensure no deadlock.  We grab the self.channels mutex above
@@ -2881,8 +2882,9 @@ impl Node {
     pub fn forget_channel(&self, channel_id: &ChannelId) -> Result<(), Status> {
         let mut stub_found = false;
         let mut ready_found = false;
-        // As per devrandom the lock order should be node_state -> channels -> channel
-        let mut node_state: MutexGuard<'_, NodeState> = self.get_state();
+        // lock order: channels -> channel -> node_state, as in every channel method
+        // (with_channel requests, channel_balance and chaninfo take the node state while
+        // holding the channel)
         let mut channels = self.get_channels();
         let found = channels.get(channel_id);
         if let Some(slot) = found {
@@ -2903,6 +2905,7 @@ impl Node {
                     ready_found = true;
                 }
             };
+            let mut node_state: MutexGuard<'_, NodeState> = self.get_state();
             if channel_id.oid() > node_state.dbid_high_water_mark {
                 node_state.dbid_high_water_mark = channel_id.oid();
                 self.persister
@@ -2919,7 +2922,6 @@ impl Node {
             });
         }
         drop(channels);
-        drop(node_state);
         if ready_found {
             // The forget flag lives in the channel's monitor state, which is persisted
             // as part of the chain tracker entry.
